@@ -554,6 +554,9 @@ struct RefTarget {
 
 inline auto plain_add(int a, int b, int c) -> int { return a * 100 + b * 10 + c; }
 
+// takes its first argument by value: a bound argument handed over as an rvalue would be moved from
+inline auto take_by_value(Tracked t, int x) -> int { return t.v * 10 + x; }
+
 struct RefDriver : DriverBase<RefDriver> {
     using Base = DriverBase<RefDriver>;
     using FR   = etl::function_ref<int(int, int&)>;
@@ -718,6 +721,25 @@ struct RefDriver : DriverBase<RefDriver> {
                     expect(ret2 == x * 100 + 2 * 10 + 3, "diff:bind_front:values", "bind_front did not pass bound then call arguments in order");
                 }
                 ++ctx.stateChanging;
+            } else if (op == "bind_front_lvalue_twice") {
+                // calling an lvalue wrapper must pass the bound arguments as lvalues: a second call (and a copy of the
+                // wrapper) still sees the bound value
+                int r1 = 0;
+                int r2 = 0;
+                int r3 = 0;
+                int r4 = 0;
+                bool ok = call(-1, false, false, [&] {
+                    auto bf = etl::bind_front(take_by_value, Tracked(x));
+                    r1      = bf(1);
+                    r2      = bf(2);
+                    auto cp = bf;
+                    r3      = cp(3);
+                    r4      = static_cast<decltype(bf) const&>(bf)(4);
+                });
+                reg().forgive_outside_arena();
+                if (ok) {
+                    expect(r1 == x * 10 + 1 && r2 == x * 10 + 2 && r3 == x * 10 + 3 && r4 == x * 10 + 4, "diff:bind_front:bound-argument-consumed", "an lvalue bind_front wrapper did not keep its bound argument across calls");
+                }
             } else if (op == "bind_front_copy") {
                 // a copy of the target is bound: the original must stay untouched, the copy's state advances per call
                 int ret1 = 0;
@@ -808,7 +830,7 @@ struct RefDriver : DriverBase<RefDriver> {
     {
         static std::vector<OpDef> const o = {
             {"fr_rebind", 5}, {"fr_copy", 5}, {"fr_call", 10}, {"fr_noexcept_fnptr", 3}, {"rw_rebind", 5}, {"rw_copy", 4}, {"rw_call", 8},
-            {"bind_front", 6}, {"bind_front_copy", 3}, {"not_fn", 5}, {"invoke", 8},
+            {"bind_front", 6}, {"bind_front_copy", 3}, {"bind_front_lvalue_twice", 3}, {"not_fn", 5}, {"invoke", 8},
         };
         return o;
     }
